@@ -111,7 +111,10 @@ def run(ck):
     long_fail = None
     if okd:
         longs = [dict(w=192, h=128, n=150, content=8, decode=1, recon=1, **{'f:enc_mode': 8, 'f:qp': 32}),
-                 dict(w=128, h=64, n=270, content=2, decode=1, recon=1, **{'f:enc_mode': 8, 'f:hierarchical_levels': 3, 'f:intra_period_length': 100, 'f:intra_refresh_type': 2})]
+                 dict(w=128, h=64, n=270, content=2, decode=1, recon=1, **{'f:enc_mode': 8, 'f:hierarchical_levels': 3, 'f:intra_period_length': 100, 'f:intra_refresh_type': 2}),
+                 # no key frame after the first: the base-layer pictures past the wrap (144, 272, ...) reference pictures on both sides of it
+                 dict(w=64, h=64, n=160, content=2, decode=1, recon=1, **{'f:enc_mode': 8, 'f:qp': 35, 'f:intra_period_length': -1}),
+                 dict(w=128, h=64, n=290, content=8, decode=1, recon=1, **{'f:enc_mode': 8, 'f:qp': 30, 'f:intra_period_length': -1, 'f:hierarchical_levels': 3})]
         if ck.tier == 'thorough':
             longs += [dict(w=192, h=128, n=400, content=8, decode=1, recon=1, **{'f:enc_mode': 6, 'f:hierarchical_levels': 4}),
                       dict(w=128, h=64, n=700, content=6, decode=1, recon=1, **{'f:enc_mode': 8, 'f:hierarchical_levels': 5, 'f:logical_processors': 2})]
